@@ -26,13 +26,17 @@ def profile(rng, flavour):
         p["w"].update(run=14)
     elif flavour == "big":
         p.update(nops=120, levels=8, maxvol=50)
+    elif flavour == "deep":          # deep resting books (heaps of 3+ levels), cancels of non-best orders, multi-level sweeps
+        p.update(nops=rng.choice([25, 40]), levels=9, maxvol=rng.choice([2, 12]), p_mo=0.2, ttls=[0, 0, 0, 4], p_neg=0.0)
+        p["w"].update(sub=30, can=40, tick=4, match=6, cont=0, run=0, probe=0)
+        p["deep"] = rng.randint(7, 16)
     return p
 
 
 def one_history(seed, flavour="mixed", exact=True):
     rng = random.Random(seed)
     if flavour == "mixed":
-        flavour = rng.choice(["plain", "plain", "mo-heavy", "auction", "ttl", "halt"])
+        flavour = rng.choice(["plain", "plain", "mo-heavy", "auction", "ttl", "halt", "deep", "deep"])
     pr = profile(rng, flavour)
     tick, den = rng.choice(EXACT_GRIDS if exact else DECIMAL_GRIDS)
     mid = rng.randint(8, 40)                    # centre of the requested prices, in ticks
@@ -53,6 +57,17 @@ def one_history(seed, flavour="mixed", exact=True):
 
 
 def _drive(s, rng, pr, ops, wts, cont, mid, den, exact, tick):
+    if pr.get("deep"):
+        # passive orders on both sides, several per level, inserted in random order (no cross)
+        for buy in (True, False):
+            for _ in range(pr["deep"]):
+                off = rng.randint(1, pr["levels"])
+                lvl = max(1, mid - off) if buy else mid + off
+                req_float = None if exact else lvl * tick
+                s.submit(buy, False, lvl * den, rng.randint(1, 3), 0, req_float=req_float)
+                if rng.random() < 0.2:
+                    s.tick()
+        cont = True
     for _ in range(pr["nops"]):
         op = rng.choices(ops, wts)[0]
         follow = False
@@ -64,6 +79,10 @@ def _drive(s, rng, pr, ops, wts, cont, mid, den, exact, tick):
             if exact and rng.random() < pr["p_off"]:
                 req += rng.randint(1, den - 1)
             vol = rng.randint(1, pr["maxvol"])
+            if pr.get("deep") and rng.random() < 0.6:
+                lvl = mid + (pr["levels"] if buy else -pr["levels"]) * rng.choice([1, 1, 0])   # sweeping price
+                req = max(1, lvl) * den
+                vol = rng.randint(3, 3 * pr["deep"])
             ttl = rng.choice(pr["ttls"])
             neg = ""
             if rng.random() < pr["p_neg"]:
@@ -77,8 +96,16 @@ def _drive(s, rng, pr, ops, wts, cont, mid, den, exact, tick):
         elif op == "can":
             if not s.accepted:
                 continue
-            s.cancel(rng.choice(list(s.accepted)))
+            oid = rng.choice(list(s.accepted))
+            s.cancel(oid)
             follow = True
+            if pr.get("deep") and rng.random() < 0.7 and s.m.is_running:
+                # right after a cancel: an aggressive order sweeping several levels of the side the cancelled order was on
+                was_buy = s.accepted[oid].is_buy
+                depth = rng.randint(2, pr["levels"])       # crosses some price levels of that side, not all
+                lvl = (mid - depth) if was_buy else (mid + depth)
+                s.submit(not was_buy, rng.random() < 0.3, max(1, lvl) * den, rng.randint(4, 3 * pr["deep"]), 0,
+                         req_float=None if exact else max(1, lvl) * tick)
         elif op == "tick":
             s.tick()
         elif op == "match":
